@@ -190,6 +190,18 @@ fn vp_native_head_hostile_inputs_no_panic_body() {
         assert!(r.is_ok(), "the client panicked on a chunk of declared size {:?}", size);
         cases += 1; crate::verif_native_watchdog::progress();
     }
+    // runs of interim (1xx) heads of any length on one connection: the call returns - with the first head, a later one, or an error
+    for (interim, count) in [("HTTP/1.1 100 Continue\r\n\r\n", 3usize), ("HTTP/1.1 100 Continue\r\n\r\n", 2_000), ("HTTP/1.1 100 Continue\r\n\r\n", 300_000), ("HTTP/1.1 103 Early Hints\r\nLink: </a>\r\n\r\n", 100_000), ("HTTP/1.1 102 Processing\r\n\r\n", 100_000)] {
+        for last in ["HTTP/1.1 200 OK\r\nContent-Length: 2\r\n\r\nok", ""] { for method in [Method::GET, Method::HEAD] {
+            let mut w = Vec::with_capacity(interim.len() * count + last.len());
+            for _ in 0..count { w.extend_from_slice(interim.as_bytes()); }
+            w.extend_from_slice(last.as_bytes());
+            let req = PreparedRequest::new(method.clone(), "http://a.test/");
+            let r = std::panic::catch_unwind(std::panic::AssertUnwindSafe(|| { let _ = parse_response(BaseStream::mock(w), &req, req.url()).and_then(|r| r.bytes()); }));
+            assert!(r.is_ok(), "the client panicked on {} interim heads {:?}", count, interim);
+            cases += 1; crate::verif_native_watchdog::progress();
+        } }
+    }
     // bodies that are not text: every sequence of up to 4 symbols over lead bytes, continuation bytes, an ASCII letter and bytes
     // that are never valid, after a short valid prefix, through every helper that turns a body into text or a string
     {
